@@ -67,6 +67,9 @@ type Behaviour struct {
 	// CFCheckptLieAt > 0: additionally the cfcheckpt list (only) is wrong at
 	// that checkpoint index (1-based), while cfheaders are as per CFLies.
 	CFCheckptLieAt int
+	// CFSurplus > 0: cfheaders answers carry this many extra (made-up)
+	// filter hashes after the ones asked for.
+	CFSurplus int
 	// CFCheckptHonest: the checkpoint list is the true one although the
 	// cfheaders lie (a batch answer then fails its checkpoint).
 	CFCheckptHonest bool
@@ -127,6 +130,10 @@ type SimPeer struct {
 	// requested header but fail the validity checks.
 	sentBadBlockWithHeader int
 	lastBadKind            string
+	// clientTipAtHandshake: the client's header tip height when this node's
+	// latest handshake completed.
+	clientTipAtHandshake int32
+	handshakeAt          time.Time
 	// cfAsked: heights for which the client asked this node for filter
 	// headers.
 	cfAsked map[int32]bool
@@ -296,6 +303,14 @@ func (p *SimPeer) handle(msg wire.Message) {
 		p.sendOpt(wire.NewMsgVerAck(), true)
 	case *wire.MsgVerAck:
 		p.shook = true
+		// What the client had stored when this node's handshake completed
+		// (simulator goroutine, quiescent point).
+		if p.w.cs != nil && !p.w.freeRun && p.w.running {
+			if _, h, err := p.w.cs.BlockHeaders.ChainTip(); err == nil {
+				p.clientTipAtHandshake = int32(h)
+				p.handshakeAt = time.Now()
+			}
+		}
 		if b.AnnounceTx {
 			inv := wire.NewMsgInv()
 			h := chainhash.DoubleHashH([]byte(fmt.Sprintf("tx-from-%d", p.idx)))
@@ -589,6 +604,10 @@ func (p *SimPeer) onGetCFHeaders(m *wire.MsgGetCFHeaders) {
 		}
 		_, fh := p.filterFor(chain[h])
 		hh := fh
+		out.AddCFHash(&hh)
+	}
+	for i := 0; i < p.beh.CFSurplus; i++ {
+		hh := chainhash.DoubleHashH([]byte(fmt.Sprintf("surplus-%d-%d-%d", p.idx, stop.Height, i)))
 		out.AddCFHash(&hh)
 	}
 	p.sendWith(out, false, func() {
